@@ -87,6 +87,21 @@ macro_rules! endian_checks {
                     }
                 }
             }
+            // two typed views of the SAME bytes (the operands of a comparison may alias)
+            {
+                let mut cell = [0u64; 1];
+                let n = std::mem::size_of::<$N>();
+                // SAFETY: a u64 is 8 bytes; n <= 8.
+                let bytes: &mut [u8] = unsafe { std::slice::from_raw_parts_mut(cell.as_mut_ptr() as *mut u8, n) };
+                bytes.copy_from_slice(&wire);
+                let bytes: &[u8] = bytes;
+                if let (Some(wr), Some(nr)) = (<$W>::from_slice(bytes), <$N as ByteValued>::from_slice(bytes)) {
+                    let represented = wr.to_native();
+                    if (*wr == *nr) != (represented == *nr) || (*nr == *wr) != (represented == *nr) || (*wr != *nr) == (represented == *nr) {
+                        return Some("comparison of two views of the same bytes");
+                    }
+                }
+            }
             let mut sink: Vec<u8> = Vec::with_capacity(8);
             if w.write_all_to(&mut sink).is_err() || sink[..] != wire[..] {
                 return Some("write_all_to bytes");
